@@ -207,6 +207,19 @@ def run_sha(shard, ctx):
         for sp in WBS[:1] + WBS[3:]:
             pth = wbspec.write(sp, os.path.join(ctx.workdir, 'pre.xlsx'))
             pipeline.translate(pth)
+        # earlier translations in this process that were REFUSED part-way (a malformed formula at the end of a dependency chain, a
+        # cycle, a chain deeper than the stack, a Python-like cell under the safety check), whole-file and from an entry cell, at the
+        # coordinates the corpus uses for its formulas: whatever they left behind must not reach the translations that follow
+        from excel2pycl import Cell as _Cell
+        chain = {'A1': 1, 'D1': '=D2+1', 'D2': '=D3+E1', 'D3': '=SUM(1;', 'E1': '=D1*2'}
+        cyc = {'A1': 1, 'D1': '=D2+1', 'D2': '=E1+1', 'E1': '=D1'}
+        deep = {'D1': '=D2+1', **{f'D{i}': f'=D{i + 1}+1' for i in range(2, 400)}, 'D400': 1, 'E1': '=D1'}
+        susp = {'A1': 'run eval(1)', 'D1': '=D2', 'D2': 5, 'E1': '=D1'}
+        for k_, cells_ in enumerate((chain, cyc, deep, susp)):
+            pth = wbspec.write(wbspec.spec(wbspec.sheet('S0', cells_), wbspec.sheet('T', {'A1': '=S0!D1'})), os.path.join(ctx.workdir, f'refused{k_}.xlsx'))
+            for entry in (None, _Cell('S0', 'D', '1'), _Cell('T', 'A', '1'), _Cell('S0', 'E', '1')):
+                o_ = pipeline.translate(pth, entry=entry, safety=(k_ == 3))
+                r.count('refused_translations_before_corpus' if not o_.ok else 'pre_translations_accepted')
         order = list(reversed(range(len(paths))))
     else:
         order = list(range(len(paths)))
